@@ -23,6 +23,7 @@ REGISTRY = {
     "C06": ("vverif.checks_names", "check_c06"),
     "C14": ("vverif.checks_names", "check_c14"),
     "C12": ("vverif.checks_names", "check_c12"),
+    "C04": ("vverif.checks_names", "check_c04"),
     "C15": ("vverif.checks_objsm", "check_c15"),
     "C16": ("vverif.checks_session", "check_c16"),
     "C20": ("vverif.checks_session", "check_c20"),
